@@ -204,3 +204,18 @@ __CPROVER_requires(REGIONS_OK && __CPROVER_is_fresh(self, sizeof(*self)))
 __CPROVER_assigns(__CPROVER_object_whole(self))
 __CPROVER_ensures(self->m_last_active_state_ids[g_k] == g_init_ids16[g_k])                 /*@ob C08,C03.history-memory-starts-at-the-initial-states */
 ;
+/* the per-state step of on_exit (the lambda handed to visit<active_non_recursive>): the state's own on_exit, once, with the exiting event */
+#if UNIT_EXIT_LAMBDA
+extern int g_xcalls; extern const stref_t g_xstate;
+void substate_on_exit(stref_t state, event_t event, fsm_t* fsm)
+__CPROVER_requires(g_xcalls == 0 && state == g_xstate)                            /*@ob C02,C03.each-active-substate-is-exited-exactly-once */
+__CPROVER_requires(EV_EQ(event, g_evt))                                           /*@ob C02,C18.exit-behaviour-sees-the-event-that-causes-the-exit */
+__CPROVER_assigns(g_xcalls, g_exc)
+__CPROVER_ensures(g_xcalls == 1)
+;
+void exit_lambda(fsm_t* self, event_t event, stref_t state)
+__CPROVER_requires(EV_EQ(event, g_evt) && state == g_xstate && g_xcalls == 0)
+__CPROVER_assigns(g_xcalls, g_exc)
+__CPROVER_ensures(g_xcalls == 1)                                                                           /*@ob C02,C03.each-active-substate-is-exited-exactly-once */
+;
+#endif
